@@ -1,6 +1,7 @@
 package modes
 
 import (
+	"errors"
 	"context"
 	"encoding/json"
 	"fmt"
@@ -84,7 +85,11 @@ func c19Run(c *c19Case) (obs c19Obs) {
 		a.SetPasswordAsBase64("secret")
 		return a
 	}
+	var unreachable int32 // 1: the server cannot be reached (NewTransport fails)
 	ccfg.NewTransport = func(context.Context) (lime.Transport, error) {
+		if atomic.LoadInt32(&unreachable) == 1 {
+			return nil, errors.New("connection refused (scripted)")
+		}
 		a, b := pair.NewBufConns()
 		mu.Lock()
 		sides = append(sides, &srvSide{conn: b})
@@ -95,9 +100,16 @@ func c19Run(c *c19Case) (obs c19Obs) {
 	}
 	var cliGot int64 // messages the client's handler saw
 	cmux := &lime.EnvelopeMux{}
+	holdHandler := make(chan struct{}) // closed = handlers run freely
+	close(holdHandler)
+	var holdMu sync.Mutex
 	if c.Handler {
 		cmux.MessageHandlerFunc(nil, func(context.Context, *lime.Message, lime.Sender) error {
 			atomic.AddInt64(&cliGot, 1)
+			holdMu.Lock()
+			h := holdHandler
+			holdMu.Unlock()
+			<-h
 			return nil
 		})
 	}
@@ -207,6 +219,9 @@ func c19Run(c *c19Case) (obs c19Obs) {
 		}
 		step("fault %d: %s", rep, fault)
 		fctx, fcancel := context.WithTimeout(context.Background(), 2*time.Second)
+		if c.Moment == "unreachable-deadline" {
+			fault = "drop during an outage" // the drop happens inside the outage block below
+		}
 		switch fault {
 		case "srv-finish":
 			_ = sc.FinishSession(fctx)
@@ -228,6 +243,34 @@ func c19Run(c *c19Case) (obs c19Obs) {
 			big.SetContent(lime.TextDocument(strings.Repeat("y", int(3*c.ReadLim))))
 			b, _ := json.Marshal(big)
 			side.conn.Write(append(b, '\n'))
+		}
+		if c.Moment == "unreachable-deadline" && c.Handler {
+			// "during re-establishment": the listener is busy inside a handler, the connection is gone and the
+			// server cannot be reached for a while; an application call with a short deadline is the one that
+			// tries to re-establish, and gives up at its deadline. When the server is back, everything must work.
+			holdMu.Lock()
+			holdHandler = make(chan struct{})
+			hh := holdHandler
+			holdMu.Unlock()
+			pm := &lime.Message{}
+			pm.ID = "held"
+			pm.SetContent(lime.TextDocument("x"))
+			pctx, pcancel := context.WithTimeout(context.Background(), time.Second)
+			_ = sc.SendMessage(pctx, pm)
+			pcancel()
+			time.Sleep(20 * time.Millisecond) // the handler has it
+			atomic.StoreInt32(&unreachable, 1)
+			side.conn.Close()
+			time.Sleep(5 * time.Millisecond)
+			dctx, dcancel := context.WithTimeout(context.Background(), 300*time.Millisecond)
+			dm := &lime.Message{}
+			dm.ID = "during-outage"
+			dm.SetContent(lime.TextDocument("x"))
+			derr := client.SendMessage(dctx, dm)
+			dcancel()
+			step("send during the outage: %v", derr)
+			atomic.StoreInt32(&unreachable, 0)
+			close(hh)
 		}
 		fcancel()
 		atomic.StoreInt32(&sending, 0)
@@ -291,7 +334,7 @@ func c19Key(p string) string {
 
 func init() {
 	Register("c19", func(e *Env) error {
-		e.Rep.Rule = "a real high-level Client (its transports are real TCP transports over in-memory connections made by its NewTransport factory, so that the harness holds the server's raw end) against a real Server; after the first session 1-3 faults in a row, each of: server FinishSession, server FailSession, connection dropped, undecodable bytes, JSON that is no envelope, an envelope of three times the client's read limit; while the client is idle or sending; with and without a registered handler; after each fault: CPU used by the idle process (a spinning listener shows), the next send must establish a fresh session and reach the server's handler, a message pushed by the server on the new session must reach the client's handler. Cases run one after the other (CPU measurement). Non-trivial = every case; distinct by case."
+		e.Rep.Rule = "a real high-level Client (its transports are real TCP transports over in-memory connections made by its NewTransport factory, so that the harness holds the server's raw end) against a real Server; after the first session 1-3 faults in a row, each of: server FinishSession, server FailSession, connection dropped, undecodable bytes, JSON that is no envelope, an envelope of three times the client's read limit; while the client is idle, sending, or (connection dropped) re-establishing against a server that is unreachable for a while, with the application call that tries giving up at its deadline; with and without a registered handler; after each fault: CPU used by the idle process (a spinning listener shows), the next send must establish a fresh session and reach the server's handler, a message pushed by the server on the new session must reach the client's handler. Cases run one after the other (CPU measurement). Non-trivial = every case; distinct by case."
 		var cases []*c19Case
 		if e.Replay != "" {
 			b, err := readReplayCase(e.Replay)
@@ -311,8 +354,11 @@ func init() {
 		} else {
 			faults := []string{"srv-finish", "srv-fail", "drop", "garbage", "not-envelope", "oversize", "odd-session"}
 			for _, f := range faults {
-				for _, moment := range []string{"idle", "sending"} {
+				for _, moment := range []string{"idle", "sending", "unreachable-deadline"} {
 					for _, h := range []bool{true, false} {
+						if moment == "unreachable-deadline" && (f != "drop" || !h) {
+							continue
+						}
 						cases = append(cases, &c19Case{Faults: []string{f}, Moment: moment, Handler: h, ReadLim: 4096})
 					}
 				}
